@@ -64,6 +64,7 @@ def replay_slice(ctx, rec, lena):
             el = lena.flow.Slice(*args)
             sink = lena.flow.StoreFilled()
             stop = None
+            after_stop = None
             for i in range(n + 12):
                 try:
                     el.fill_into(sink, i)
@@ -73,6 +74,25 @@ def replay_slice(ctx, rec, lena):
                 except Exception as exc:   # noqa
                     stop = "raised " + exc_name(exc)
                     break
+            if isinstance(stop, int):
+                # the stop point is final: a consumer that keeps offering values must not get any of them
+                # filled (the element may raise LenaStopFill again or ignore them)
+                before = list(sink.group)
+                for i in range(stop, stop + 2 * (n + 14)):
+                    try:
+                        el.fill_into(sink, i)
+                    except lena.core.LenaStopFill:
+                        pass
+                    except Exception as exc:   # noqa
+                        after_stop = "raised " + exc_name(exc)
+                        break
+                if after_stop is None and sink.group != before:
+                    after_stop = "filled %r after LenaStopFill at %d" % (sink.group[len(before):], stop)
+                del sink.group[len(before):]
+                if after_stop:
+                    bad = True
+                    ctx.violation("Slice.fill_into:after-stop", {"args": repr(args), "stop": stop,
+                                                                 "observed": after_stop})
             lo = 0 if a is None else a
             st = 1 if s is None else s
             sel = lambda j: j >= lo and (b is None or j < b) and (j - lo) % st == 0
@@ -96,17 +116,42 @@ def replay_iter(ctx, rec, lena):
     got = {}
     try:
         if kind == "reverse":
-            got["Reverse"] = list(lena.flow.Reverse().run(iter(range(n))))
+            rv = lena.flow.Reverse()
+            got["Reverse"] = list(rv.run(iter(range(n))))
+            got["Reverse:second-run"] = list(rv.run(iter(range(n))))
         elif kind == "chain":
             its = [[(i + 1, j) for j in range(m)] for i, m in enumerate((p1, p2, n))]
             exp = [tuple(x) for x in exp]
-            got["Chain"] = list(lena.flow.Chain(*its)())
+            ch = lena.flow.Chain(*its)
+            got["Chain"] = list(ch())
+            # the element is a Source: every call generates the chain of its (re-iterable) arguments anew
+            got["Chain:second-call"] = list(ch())
+            g1, g2 = ch(), ch()
+            inter = [list(itertools.islice(g1, 1)), list(g2), list(g1)]
+            got["Chain:interleaved-calls:first"] = inter[0] + inter[2]
+            got["Chain:interleaved-calls:second"] = inter[1]
             got["Chain(iter)"] = list(lena.flow.Chain(*[iter(x) for x in its])())
         elif kind == "count":
-            got["CountFrom"] = list(itertools.islice(lena.flow.CountFrom(p1, p2)(), n))
+            cf = lena.flow.CountFrom(p1, p2)
+            got["CountFrom"] = list(itertools.islice(cf(), n))
+            got["CountFrom:second-call"] = list(itertools.islice(cf(), n))
+            # the machine counts by repeated addition (CountStep: v' = v + step), which is what
+            # itertools.count does; with binary floats that differs from start + i*step, so the same
+            # action sequence is replayed in float arithmetic on scaled arguments
+            for scale in (0.1, 1e16 + 2.0, 1e-3, 1.0 / 3.0):
+                fs, fp = p1 * scale, p2 * scale
+                ref, v = [], fs
+                for _ in range(n + 8):
+                    ref.append(v)
+                    v = v + fp
+                obs = list(itertools.islice(lena.flow.CountFrom(fs, fp)(), n + 8))
+                if obs != ref or obs != list(itertools.islice(itertools.count(fs, fp), n + 8)):
+                    got["CountFrom(float)"] = "differs from repeated addition / itertools.count for start=%r step=%r: %r" % (fs, fp, obs)
         elif kind == "chunk":
             exp_t = [tuple(w) for w in exp]
-            got["RunningChunkBy(tuple)"] = list(lena.flow.RunningChunkBy(p1).run(iter(range(n))))
+            rc = lena.flow.RunningChunkBy(p1)
+            got["RunningChunkBy(tuple)"] = list(rc.run(iter(range(n))))
+            got["RunningChunkBy(tuple):second-run"] = list(rc.run(iter(range(n))))
             l = list(lena.flow.RunningChunkBy(p1, container=list, from_iterable=True).run(range(n)))
             got["RunningChunkBy(list)"] = [tuple(w) for w in l]
             nt = collections.namedtuple("W", ["f%d" % i for i in range(p1)])
@@ -119,6 +164,10 @@ def replay_iter(ctx, rec, lena):
         got[kind] = "raised " + exc_name(exc)
     ok = True
     for name, val in got.items():
+        if name == "CountFrom(float)":
+            ok = False
+            ctx.violation(name, {"scenario": rec, "observed": val})
+            continue
         if val != exp:
             ok = False
             ctx.violation("%s" % name, {"scenario": rec, "expected": exp, "observed": val})
